@@ -25,6 +25,8 @@ func runC19(c *Ctx) {
 			{Kind: "dist-rmf", Persist: per, Sec: "p", PType: "p", FI: 1, Vals: []string{"data1"}},
 			{Kind: "dist-upd", Persist: per, Sec: "p", PType: "p", Rule: P[0], New: []string{"alice", "data1", "write"}},
 			{Kind: "dist-upds", Persist: per, Sec: "p", PType: "p", Rules: [][]string{P[1], P[2]}, News: [][]string{{"admin", "data2", "read"}, {"bob", "data2", "read"}}},
+			// an unchanged pair first: the pairing of old and new rules must not shift
+			{Kind: "dist-upds", Persist: per, Sec: "p", PType: "p", Rules: [][]string{P[0], P[1]}, News: [][]string{P[0], {"admin", "data1", "read"}}},
 			{Kind: "dist-add", Persist: per, Sec: "g", PType: "g", Rules: G},
 			{Kind: "dist-add", Persist: per, Sec: "g", PType: "g", Rules: [][]string{G[0]}},
 			{Kind: "dist-rm", Persist: per, Sec: "g", PType: "g", Rules: [][]string{G[0]}},
